@@ -19,7 +19,7 @@ func main() {
 	verif := flag.String("verif", "/verif", "verif dir")
 	run := flag.String("run", "", "dev mode: <pkgrel>:<Entry>")
 	bounds := flag.String("b", "", "bounds k=v,k=v")
-	workers := flag.Int("j", 16, "workers")
+	workers := flag.Int("j", 8, "workers")
 	preempt := flag.Int("preempt", -1, "preemption bound (-1 cooperative)")
 	maxlevel := flag.Int("maxlevel", 1, "max consecutive coin successes")
 	schedfree := flag.Bool("schedfree", false, "free scheduling choice at blocking points")
@@ -28,7 +28,9 @@ func main() {
 	all := flag.Bool("all", false, "do not stop at first violation")
 	cpuprof := flag.String("cpuprofile", "", "write cpu profile")
 	flag.Parse()
-	debug.SetGCPercent(800)
+	if os.Getenv("GOGC") == "" {
+		debug.SetGCPercent(100)
+	}
 	if *cpuprof != "" {
 		f, _ := os.Create(*cpuprof)
 		pprof.StartCPUProfile(f)
